@@ -33,7 +33,10 @@ pub fn log(id: u32) { LOG.with(|l| l.borrow_mut().push(id)); }
 /// sorted ids of the user-level conversions executed since the last call
 pub fn take_log() -> String { LOG.with(|l| { let mut v = std::mem::take(&mut *l.borrow_mut()); v.sort(); format!("{:?}", v) }) }
 pub trait N { fn n(&self) -> u32; fn set(&mut self, n: u32); }
-pub fn addr<T>(r: &T) -> usize { r as *const T as usize }
+pub fn addr<T: ?Sized>(r: &T) -> usize { r as *const T as *const () as usize }
+/// `<T as Id>::T` is `T`: another way of writing a type in an attribute
+pub trait Id { type T: ?Sized; }
+impl<T: ?Sized> Id for T { type T = T; }
 macro_rules! fam {
     ($id:expr, $F:ident, $R:ident, $Q:ident, $A:ident, $B:ident, $X:ident, $Y:ident) => {
         #[derive(Debug, Clone, PartialEq)] pub struct $Q(pub u32);
@@ -59,12 +62,36 @@ macro_rules! fam {
         impl<'a> From<&'a $F> for &'a $Q { fn from(f: &'a $F) -> &'a $Q { log($id * 10 + 6); &(f.0).0 } }
         impl<'a> From<&'a mut $F> for &'a mut $R { fn from(f: &'a mut $F) -> &'a mut $R { log($id * 10 + 7); &mut f.0 } }
         impl<'a> From<&'a mut $F> for &'a mut $Q { fn from(f: &'a mut $F) -> &'a mut $Q { log($id * 10 + 8); &mut (f.0).0 } }
+        // conversions whose other side is not written as a bare identifier: `&'static A`, `Box<X>`, the unsized `[Q]`
+        impl From<&'static $A> for $F { fn from(a: &'static $A) -> $F { log($id * 10 + 9); $F::v(a.0) } }
+        impl From<$F> for Box<$X> { fn from(f: $F) -> Box<$X> { log(100 + $id * 10 + 1); Box::new($X(f.n())) } }
+        impl<'a> From<&'a $F> for &'a [$Q] { fn from(f: &'a $F) -> &'a [$Q] { log(100 + $id * 10 + 2); std::slice::from_ref(&(f.0).0) } }
+        impl<'a> From<&'a mut $F> for &'a mut [$Q] { fn from(f: &'a mut $F) -> &'a mut [$Q] { log(100 + $id * 10 + 3); std::slice::from_mut(&mut (f.0).0) } }
+        impl N for [$Q] { fn n(&self) -> u32 { self[0].0 } fn set(&mut self, n: u32) { self[0].0 = n; } }
     };
 }
 fam!(0, F0, R0, Q0, A0, B0, X0, Y0);
 fam!(1, F1, R1, Q1, A1, B1, X1, Y1);
 fam!(2, F2, R2, Q2, A2, B2, X2, Y2);
 fam!(3, F3, R3, Q3, A3, B3, X3, Y3);
+/// family 4: the *field type* is written as a tuple type `(T4, u8)` (conversions from A4/B4/&'static A4, into X4/Y4/Box<X4>)
+#[derive(Debug, Clone, PartialEq)] pub struct T4(pub u32);
+#[derive(Debug, Clone, PartialEq)] pub struct A4(pub u32);
+#[derive(Debug, Clone, PartialEq)] pub struct B4(pub u32);
+#[derive(Debug, Clone, PartialEq)] pub struct X4(pub u32);
+#[derive(Debug, Clone, PartialEq)] pub struct Y4(pub u32);
+pub fn fv4(n: u32) -> (T4, u8) { (T4(n), 4) }
+impl N for (T4, u8) { fn n(&self) -> u32 { (self.0).0 } fn set(&mut self, n: u32) { (self.0).0 = n; } }
+impl N for A4 { fn n(&self) -> u32 { self.0 } fn set(&mut self, n: u32) { self.0 = n; } }
+impl N for B4 { fn n(&self) -> u32 { self.0 } fn set(&mut self, n: u32) { self.0 = n; } }
+impl N for X4 { fn n(&self) -> u32 { self.0 } fn set(&mut self, n: u32) { self.0 = n; } }
+impl N for Y4 { fn n(&self) -> u32 { self.0 } fn set(&mut self, n: u32) { self.0 = n; } }
+impl From<A4> for (T4, u8) { fn from(a: A4) -> (T4, u8) { log(41); fv4(a.0) } }
+impl From<B4> for (T4, u8) { fn from(a: B4) -> (T4, u8) { log(42); fv4(a.0) } }
+impl From<(T4, u8)> for X4 { fn from(f: (T4, u8)) -> X4 { log(43); X4(f.n()) } }
+impl From<(T4, u8)> for Y4 { fn from(f: (T4, u8)) -> Y4 { log(44); Y4(f.n()) } }
+impl From<&'static A4> for (T4, u8) { fn from(a: &'static A4) -> (T4, u8) { log(49); fv4(a.0) } }
+impl From<(T4, u8)> for Box<X4> { fn from(f: (T4, u8)) -> Box<X4> { log(141); Box::new(X4(f.n())) } }
 /// a field type that converts from / into a *tuple* as a whole (one-field structs with a tuple type listed)
 #[derive(Debug, Clone, PartialEq)] pub struct W0(pub u32, pub u32);
 impl From<(A0, A1)> for W0 { fn from(v: (A0, A1)) -> W0 { log(91); W0((v.0).0, (v.1).0) } }
@@ -90,15 +117,35 @@ enum Ty {
     Y(u8),
     R(u8),
     Q(u8),
+    /// `&'static A<i>` (converts into `F<i>`)
+    RA(u8),
+    /// `Box<X<i>>` (owned target)
+    BX(u8),
+    /// the unsized `[Q<i>]` (target of the reference kinds)
+    SQ(u8),
 }
+
+/// family whose field type is written as the tuple type `(T4, u8)`
+const TUPLE_FAM: u8 = 4;
 
 impl Ty {
     fn fam(self) -> u8 {
         match self {
-            Ty::F(f) | Ty::A(f) | Ty::B(f) | Ty::X(f) | Ty::Y(f) | Ty::R(f) | Ty::Q(f) => f,
+            Ty::F(f) | Ty::A(f) | Ty::B(f) | Ty::X(f) | Ty::Y(f) | Ty::R(f) | Ty::Q(f) | Ty::RA(f) | Ty::BX(f) | Ty::SQ(f) => f,
         }
     }
+    /// written as one identifier (then it can also be spelled as a path / projection)
+    fn is_ident(self) -> bool {
+        !matches!(self, Ty::RA(_) | Ty::BX(_) | Ty::SQ(_) | Ty::F(TUPLE_FAM))
+    }
     fn name(self) -> String {
+        match self {
+            Ty::F(TUPLE_FAM) => return "(T4, u8)".to_string(),
+            Ty::RA(f) => return format!("&'static A{f}"),
+            Ty::BX(f) => return format!("Box<X{f}>"),
+            Ty::SQ(f) => return format!("[Q{f}]"),
+            _ => {}
+        }
         let c = match self {
             Ty::F(_) => 'F',
             Ty::A(_) => 'A',
@@ -107,12 +154,17 @@ impl Ty {
             Ty::Y(_) => 'Y',
             Ty::R(_) => 'R',
             Ty::Q(_) => 'Q',
+            Ty::RA(_) | Ty::BX(_) | Ty::SQ(_) => unreachable!(),
         };
         format!("{c}{}", self.fam())
     }
     fn ctor(self, n: u32) -> String {
         match self {
+            Ty::F(TUPLE_FAM) => format!("fv4({n})"),
             Ty::F(f) => format!("F{f}::v({n})"),
+            Ty::RA(f) => format!("&A{f}({n})"),
+            Ty::BX(f) => format!("Box::new(X{f}({n}))"),
+            Ty::SQ(_) => unreachable!("only a reference target"),
             _ => format!("{}({n})", self.name()),
         }
     }
@@ -122,6 +174,10 @@ impl Ty {
     fn log_id(self, kind: usize) -> Option<u32> {
         let k = match (self, kind) {
             (Ty::F(_), _) => return None,
+            (Ty::RA(_), _) => 9,
+            (Ty::BX(f), _) => return Some(100 + f as u32 * 10 + 1),
+            (Ty::SQ(f), 2) => return Some(100 + f as u32 * 10 + 3),
+            (Ty::SQ(f), _) => return Some(100 + f as u32 * 10 + 2),
             (Ty::A(_), _) => 1,
             (Ty::B(_), _) => 2,
             (Ty::X(_), _) => 3,
@@ -145,6 +201,100 @@ fn tup(parts: &[String]) -> String {
 
 fn tys_str(t: &[Ty]) -> String {
     tup(&t.iter().map(|a| a.name()).collect::<Vec<_>>())
+}
+
+/// How the types listed in attributes are *written* (the model is about the types, not their spelling): with
+/// `seed == 0` everything is plain; otherwise identifiers may be written as `crate::X0`, `<X0 as Id>::T` or `(X0)`,
+/// tuple types and lists may carry a trailing comma.
+#[derive(Clone, Debug)]
+struct Sp {
+    seed: u32,
+    n: u32,
+    path: bool,
+    qself: bool,
+    paren: bool,
+    trailing: bool,
+}
+
+impl Sp {
+    fn plain() -> Sp {
+        Sp::new(0)
+    }
+    fn new(seed: u32) -> Sp {
+        Sp { seed, n: 0, path: false, qself: false, paren: false, trailing: false }
+    }
+    fn draw(d: &mut Dice) -> Sp {
+        Sp::new(if d.chance(35) { 1 + d.pick(60000) as u32 } else { 0 })
+    }
+    fn labels(&self, labels: &mut Vec<String>) {
+        for (on, l) in [(self.path, "spelled_crate_path"), (self.qself, "spelled_qself_projection"), (self.paren, "spelled_parenthesized"), (self.trailing, "trailing_comma")] {
+            if on {
+                labels.push(l.to_string());
+            }
+        }
+        if self.path || self.qself || self.paren {
+            labels.push("listed_type_respelled".to_string());
+        }
+    }
+    fn next(&mut self, m: u32) -> u32 {
+        if self.seed == 0 {
+            return 0;
+        }
+        self.n += 1;
+        let x = (self.seed as u64).wrapping_mul(2654435761).wrapping_add((self.n as u64).wrapping_mul(0x9E3779B97F4A7C15));
+        ((x >> 17) % m as u64) as u32
+    }
+    fn atom(&mut self, t: Ty) -> String {
+        let name = t.name();
+        if !t.is_ident() {
+            return name;
+        }
+        match self.next(9) {
+            5 => {
+                self.path = true;
+                format!("crate::{name}")
+            }
+            6 => {
+                self.qself = true;
+                format!("<{name} as Id>::T")
+            }
+            7 => {
+                self.paren = true;
+                format!("({name})")
+            }
+            8 => {
+                self.qself = true;
+                format!("<{name} as crate::Id>::T")
+            }
+            _ => name,
+        }
+    }
+    /// one listed type: a single type, or a tuple type of the fields' arity
+    fn ty(&mut self, t: &[Ty]) -> String {
+        let parts: Vec<String> = t.iter().map(|a| self.atom(*a)).collect();
+        match parts.len() {
+            0 => "()".to_string(),
+            1 => parts[0].clone(),
+            _ => {
+                let tc = if self.next(6) == 5 {
+                    self.trailing = true;
+                    ","
+                } else {
+                    ""
+                };
+                format!("({}{tc})", parts.join(", "))
+            }
+        }
+    }
+    /// a comma-separated list of listed types, possibly with a trailing comma
+    fn list(&mut self, tys: &[Vec<Ty>]) -> String {
+        let mut s = tys.iter().map(|t| self.ty(t)).collect::<Vec<_>>().join(", ");
+        if !tys.is_empty() && self.next(6) == 5 {
+            self.trailing = true;
+            s.push(',');
+        }
+        s
+    }
 }
 
 const KIND_NAME: [&str; 3] = ["owned", "ref", "ref_mut"];
@@ -225,16 +375,13 @@ enum FromAttr {
 }
 
 impl FromAttr {
-    fn render(&self, indent: &str) -> String {
+    fn render(&self, indent: &str, sp: &mut Sp) -> String {
         match self {
             FromAttr::None => String::new(),
             FromAttr::Empty => format!("{indent}#[from]\n"),
             FromAttr::Skip(s) => format!("{indent}#[from({s})]\n"),
             FromAttr::Forward => format!("{indent}#[from(forward)]\n"),
-            FromAttr::Types(groups) => groups
-                .iter()
-                .map(|g| format!("{indent}#[from({})]\n", g.iter().map(|t| tys_str(t)).collect::<Vec<_>>().join(", ")))
-                .collect(),
+            FromAttr::Types(groups) => groups.iter().map(|g| format!("{indent}#[from({})]\n", sp.list(g))).collect(),
         }
     }
     fn label(&self) -> &'static str {
@@ -249,33 +396,74 @@ impl FromAttr {
 }
 
 impl IntoAttr {
-    fn render(&self) -> Vec<String> {
+    fn render(&self, sp: &mut Sp) -> Vec<String> {
         match self {
             IntoAttr::Empty => vec!["#[into]".to_string()],
             IntoAttr::Parts(parts) => parts
                 .iter()
                 .map(|p| match p {
-                    IntoPart::Plain(tys) => format!("#[into({})]", tys.iter().map(|t| tys_str(t)).collect::<Vec<_>>().join(", ")),
-                    IntoPart::Wrapped(es) => format!(
-                        "#[into({})]",
-                        es.iter()
+                    IntoPart::Plain(tys) => format!("#[into({})]", sp.list(tys)),
+                    IntoPart::Wrapped(es) => {
+                        let mut inner = es
+                            .iter()
                             .map(|(k, tys)| match tys {
                                 None => KIND_NAME[*k].to_string(),
-                                Some(tys) => format!("{}({})", KIND_NAME[*k], tys.iter().map(|t| tys_str(t)).collect::<Vec<_>>().join(", ")),
+                                Some(tys) => format!("{}({})", KIND_NAME[*k], sp.list(tys)),
                             })
                             .collect::<Vec<_>>()
-                            .join(", ")
-                    ),
+                            .join(", ");
+                        if sp.next(6) == 5 {
+                            sp.trailing = true;
+                            inner.push(',');
+                        }
+                        format!("#[into({inner})]")
+                    }
                 })
                 .collect(),
         }
     }
 }
 
-fn fld_attrs(f: &Fld) -> String {
+fn rich_ty_labels<'a>(tys: impl Iterator<Item = &'a Ty>, labels: &mut Vec<String>) {
+    for t in tys {
+        match t {
+            Ty::RA(_) => labels.push("listed_reference_type".into()),
+            Ty::BX(_) => labels.push("listed_generic_path_type".into()),
+            Ty::SQ(_) => labels.push("listed_unsized_type".into()),
+            _ => continue,
+        }
+        labels.push("listed_type_not_an_identifier".into());
+    }
+}
+
+fn into_attr_labels(a: &IntoAttr, labels: &mut Vec<String>) {
+    let IntoAttr::Parts(parts) = a else { return };
+    let plain = parts.iter().any(|p| matches!(p, IntoPart::Plain(_)));
+    let wrapped = parts.iter().any(|p| matches!(p, IntoPart::Wrapped(_)));
+    if plain && wrapped {
+        labels.push("into_plain_and_wrapped_attrs".into());
+    }
+    for p in parts {
+        match p {
+            IntoPart::Plain(tys) => rich_ty_labels(tys.iter().flatten(), labels),
+            IntoPart::Wrapped(es) => {
+                for (i, (k, tys)) in es.iter().enumerate() {
+                    if tys.is_none() && es[..i].iter().any(|(k2, t2)| k2 == k && t2.is_some()) {
+                        labels.push("into_kind_typed_then_bare".into());
+                    }
+                    if let Some(tys) = tys {
+                        rich_ty_labels(tys.iter().flatten(), labels);
+                    }
+                }
+            }
+        }
+    }
+}
+
+fn fld_attrs(f: &Fld, sp: &mut Sp) -> String {
     let mut parts: Vec<String> = vec![];
     let skip = f.into_skip.map(|s| format!("#[into({s})]"));
-    let conv = f.into_attr.as_ref().map(|a| a.render()).unwrap_or_default();
+    let conv = f.into_attr.as_ref().map(|a| a.render(sp)).unwrap_or_default();
     if f.skip_first {
         parts.extend(skip.clone());
         parts.extend(conv);
@@ -291,14 +479,18 @@ fn fld_attrs(f: &Fld) -> String {
 }
 
 fn decl_fields(shape: Shape, fields: &[Fld], with_attrs: bool) -> String {
-    let one = |f: &Fld| {
-        let a = if with_attrs { fld_attrs(f) } else { String::new() };
+    decl_fields_sp(shape, fields, with_attrs, &mut Sp::plain())
+}
+
+fn decl_fields_sp(shape: Shape, fields: &[Fld], with_attrs: bool, sp: &mut Sp) -> String {
+    let mut one = |f: &Fld| {
+        let a = if with_attrs { fld_attrs(f, sp) } else { String::new() };
         match shape {
-            Shape::Named => format!("{a}{}: F{}", f.member, f.fam),
-            _ => format!("{a}F{}", f.fam),
+            Shape::Named => format!("{a}{}: {}", f.member, Ty::F(f.fam).name()),
+            _ => format!("{a}{}", Ty::F(f.fam).name()),
         }
     };
-    let inner = fields.iter().map(one).collect::<Vec<_>>().join(", ");
+    let inner = fields.iter().map(|f| one(f)).collect::<Vec<_>>().join(", ");
     match shape {
         Shape::Unit => String::new(),
         Shape::Tuple => format!("({inner})"),
@@ -312,7 +504,7 @@ fn literal(path: &str, shape: Shape, fields: &[Fld], vals: &[u32]) -> String {
         fields
             .iter()
             .zip(vals)
-            .map(|(f, v)| if named { format!("{}: F{}::v({v})", f.member, f.fam) } else { format!("F{}::v({v})", f.fam) })
+            .map(|(f, v)| if named { format!("{}: {}", f.member, Ty::F(f.fam).ctor(*v)) } else { Ty::F(f.fam).ctor(*v) })
             .collect::<Vec<_>>()
             .join(", ")
     };
@@ -337,7 +529,7 @@ enum Src {
 
 /// `F<f>: From<atom>` holds in the prelude (reflexive, A, B)
 fn conv_ok(atom: Ty, f: u8) -> bool {
-    atom.fam() == f && matches!(atom, Ty::F(_) | Ty::A(_) | Ty::B(_))
+    atom.fam() == f && matches!(atom, Ty::F(_) | Ty::A(_) | Ty::B(_) | Ty::RA(_))
 }
 
 fn src_matches(s: &Src, u: &[Ty]) -> bool {
@@ -473,7 +665,7 @@ fn gen_from_types(d: &mut Dice, fams: &[u8]) -> Vec<Vec<Vec<Ty>>> {
         let nt = 1 + d.pick(2);
         let mut tys = vec![];
         for _ in 0..nt {
-            let t: Vec<Ty> = fams.iter().map(|f| [Ty::A(*f), Ty::F(*f), Ty::B(*f)][d.pick(3)]).collect();
+            let t: Vec<Ty> = fams.iter().map(|f| [Ty::A(*f), Ty::F(*f), Ty::B(*f), Ty::RA(*f)][d.weighted(&[4, 4, 4, 2])]).collect();
             if seen.insert(t.clone()) {
                 tys.push(t);
             }
@@ -488,11 +680,14 @@ fn gen_from_types(d: &mut Dice, fams: &[u8]) -> Vec<Vec<Vec<Ty>>> {
 fn gen_target(d: &mut Dice, tf: &[u8], kind: usize) -> Vec<Ty> {
     tf.iter()
         .map(|f| {
-            let i = d.pick(3);
+            let i = d.weighted(&[4, 4, 4, 2]);
             if kind == 0 {
-                [Ty::X(*f), Ty::F(*f), Ty::Y(*f)][i]
+                [Ty::X(*f), Ty::F(*f), Ty::Y(*f), Ty::BX(*f)][i]
+            } else if *f == TUPLE_FAM {
+                // the tuple-typed field is borrowed as it is (no sub-object with a guaranteed offset)
+                Ty::F(*f)
             } else {
-                [Ty::R(*f), Ty::F(*f), Ty::Q(*f)][i]
+                [Ty::R(*f), Ty::F(*f), Ty::Q(*f), Ty::SQ(*f)][i]
             }
         })
         .collect()
@@ -516,10 +711,16 @@ fn gen_into_attr(d: &mut Dice, tf: &[u8]) -> IntoAttr {
                     let k = d.pick(3);
                     // a kind may be written again in the same attribute with a (further) type list: the lists add up
                     let again = used[k];
-                    if again && !(typed_ok && d.chance(60)) {
+                    // written again in the same attribute: a further type list, or (after a list) the bare kind
+                    let again_typed = again && typed_ok && d.chance(60);
+                    if again && !again_typed {
+                        if !bare[k] && d.chance(50) {
+                            bare[k] = true;
+                            es.push((k, None));
+                        }
                         continue;
                     }
-                    if again || (typed_ok && d.chance(40)) {
+                    if again_typed || (typed_ok && d.chance(40)) {
                         let nt = 1 + d.pick(2);
                         let mut tys = vec![];
                         for _ in 0..nt {
@@ -538,12 +739,28 @@ fn gen_into_attr(d: &mut Dice, tf: &[u8]) -> IntoAttr {
                         es.push((k, None));
                     }
                 }
+                // a kind that has a type list so far is also written bare, after the list
+                if typed_ok && d.chance(12) {
+                    if let Some(k) = (0..3).find(|k| !bare[*k] && es.iter().any(|(k2, t)| k2 == k && t.is_some())) {
+                        bare[k] = true;
+                        es.push((k, None));
+                    }
+                }
                 if !es.is_empty() {
                     parts.push(IntoPart::Wrapped(es));
                 }
             }
             if parts.is_empty() {
                 parts.push(IntoPart::Wrapped(vec![(0, None)]));
+            }
+            // a further attribute with a plain type list (plain and wrapped forms may not share one attribute, but
+            // repeated attributes add up)
+            if typed_ok && d.chance(15) {
+                let t = gen_target(d, tf, 0);
+                if seen.insert((0, t.clone())) {
+                    let at = d.pick(parts.len() + 1);
+                    parts.insert(at, IntoPart::Plain(vec![t]));
+                }
             }
             IntoAttr::Parts(parts)
         }
@@ -564,6 +781,13 @@ fn gen_into_attr(d: &mut Dice, tf: &[u8]) -> IntoAttr {
                     parts.push(IntoPart::Plain(tys));
                 }
             }
+            if d.chance(15) {
+                // a further attribute with wrapped kinds
+                let k = d.pick(3);
+                let e = if k != 0 && d.chance(50) { Some(vec![gen_target(d, tf, k)]) } else { None };
+                let at = d.pick(parts.len() + 1);
+                parts.insert(at, IntoPart::Wrapped(vec![(k, e)]));
+            }
             IntoAttr::Parts(parts)
         }
     }
@@ -571,7 +795,7 @@ fn gen_into_attr(d: &mut Dice, tf: &[u8]) -> IntoAttr {
 
 fn gen_fields(d: &mut Dice, nf: usize, shape: Shape, labels: &mut Vec<String>) -> Vec<Fld> {
     let mode = if nf < 2 { 0 } else { d.weighted(&[5, 3, 2]) };
-    let fams: Vec<u8> = match mode {
+    let mut fams: Vec<u8> = match mode {
         0 => perm(d, 4).into_iter().take(nf).map(|x| x as u8).collect(),
         1 => {
             let f = d.pick(4) as u8;
@@ -579,6 +803,19 @@ fn gen_fields(d: &mut Dice, nf: usize, shape: Shape, labels: &mut Vec<String>) -
         }
         _ => (0..nf).map(|_| d.pick(2) as u8).collect(),
     };
+    // a field whose type is written as a tuple type
+    if nf > 0 && d.chance(12) {
+        let i = d.pick(nf);
+        if mode == 1 {
+            fams = vec![TUPLE_FAM; nf];
+        } else {
+            fams[i] = TUPLE_FAM;
+        }
+        labels.push("field_of_tuple_type".into());
+        if nf == 1 {
+            labels.push("sole_field_of_tuple_type".into());
+        }
+    }
     if nf >= 2 {
         let distinct = fams.iter().collect::<BTreeSet<_>>().len();
         labels.push(
@@ -593,7 +830,12 @@ fn gen_fields(d: &mut Dice, nf: usize, shape: Shape, labels: &mut Vec<String>) -
         );
     }
     // declaration order is deliberately not the alphabetical one
-    let pool = ["z", "a", "m", "b"];
+    let pool = if shape == Shape::Named && d.chance(12) {
+        labels.push("raw_ident_fields".into());
+        ["r#type", "a", "r#fn", "b"]
+    } else {
+        ["z", "a", "m", "b"]
+    };
     let order = perm(d, 4);
     (0..nf)
         .map(|i| Fld {
@@ -631,6 +873,11 @@ fn canon_ty(t: &syn::Type) -> String {
             }
         }
         syn::Type::Reference(r) => format!("&'static {}{}", if r.mutability.is_some() { "mut " } else { "" }, canon_ty(&r.elem)),
+        // the spellings of `Sp::atom`: `<X as Id>::T` and `crate::X` are `X`
+        syn::Type::Path(p) if p.qself.is_some() && p.path.segments.len() >= 2 && p.path.segments[p.path.segments.len() - 2].ident == "Id" && p.path.segments.last().is_some_and(|s| s.ident == "T") => {
+            canon_ty(&p.qself.as_ref().unwrap().ty)
+        }
+        syn::Type::Path(p) if p.qself.is_none() && p.path.segments.len() == 2 && p.path.segments[0].ident == "crate" => p.path.segments[1].ident.to_string(),
         other => tok::ts_string(other).replace(' ', ""),
     }
 }
@@ -756,7 +1003,7 @@ fn from_block(out: &mut String, d: &mut Dice, ty_name: &str, path: &str, shape: 
     let ids: Vec<u32> = src.iter().filter_map(|a| a.log_id(0)).collect();
     let lit = literal(path, shape, fields, &vals);
     let call = if d.chance(30) {
-        format!("let v: {ty_name} = {src_val}.into();")
+        format!("let v: {ty_name} = ({src_val}).into();")
     } else {
         format!("let v = <{ty_name} as From<{src_ty}>>::from({src_val});")
     };
@@ -772,7 +1019,7 @@ fn access(shape: Shape, f: &Fld) -> String {
     format!("s.{}", f.member)
 }
 
-fn into_block(out: &mut String, d: &mut Dice, shape: Shape, fields: &[Fld], im: &IntoImpl) {
+fn into_block(out: &mut String, d: &mut Dice, shape: Shape, fields: &[Fld], im: &IntoImpl, lit_path: &str) {
     let k = im.kind;
     let n = im.target.len();
     let tty = kind_tys_str(k, &im.target, false);
@@ -813,7 +1060,7 @@ fn into_block(out: &mut String, d: &mut Dice, shape: Shape, fields: &[Fld], im: 
             for i in &im.fields {
                 after[*i] += 1_000_000;
             }
-            let lit_after = literal("S", shape, fields, &after);
+            let lit_after = literal(lit_path, shape, fields, &after);
             let unit = if n == 0 { "\n            let () = t;" } else { "" };
             let _ = writeln!(
                 out,
@@ -867,6 +1114,9 @@ fn build_struct(d: &mut Dice) -> GenCase {
                     from_attr = FromAttr::Types(g);
                 }
             }
+            // a blanket impl bounded by `(T4, u8): From<T>` overlaps with every other impl as far as rustc can tell
+            // (a foreign type may get further impls): Rust's coherence, whatever a derive does
+            _ if fams.contains(&TUPLE_FAM) => {}
             _ => from_attr = FromAttr::Forward,
         }
     }
@@ -925,22 +1175,43 @@ fn build_struct(d: &mut Dice) -> GenCase {
         derives.push("derive_more::Constructor");
     }
     let mut attrs = String::new();
+    let mut sp = Sp::draw(d);
     if d_from {
-        attrs.push_str(&from_attr.render(""));
+        attrs.push_str(&from_attr.render("", &mut sp));
+        if let FromAttr::Types(g) = &from_attr {
+            rich_ty_labels(g.iter().flatten().flatten(), &mut labels);
+        }
     }
     if let (true, Some(a)) = (d_into, &into_struct) {
-        for l in a.render() {
+        for l in a.render(&mut sp) {
             attrs.push_str(&l);
             attrs.push('\n');
         }
+        into_attr_labels(a, &mut labels);
     }
+    if d_into {
+        for f in &fields {
+            if let Some(a) = &f.into_attr {
+                into_attr_labels(a, &mut labels);
+            }
+        }
+    }
+    // the same struct with an (unused) const parameter, used through the alias `S`: the impls carry the parameter
+    let generic = d.chance(12);
+    let (sname, gdecl, alias, lit_path) = if generic {
+        labels.push("const_generic_struct".into());
+        ("SG", "<const CN: usize>", "\npub type S = SG<7>;", "SG::<7>")
+    } else {
+        ("S", "", "", "S")
+    };
     let semi = if shape == Shape::Named { "" } else { ";" };
     let item = format!(
-        "#[derive(Debug, Clone, PartialEq, {})]\n{attrs}pub struct S{}{semi}",
+        "#[derive(Debug, Clone, PartialEq, {})]\n{attrs}pub struct {sname}{gdecl}{}{semi}",
         derives.join(", "),
-        decl_fields(shape, &fields, d_into)
+        decl_fields_sp(shape, &fields, d_into, &mut sp)
     );
-    let control = format!("#[derive(Debug, Clone, PartialEq)]\npub struct S{}{semi}", decl_fields(shape, &fields, false));
+    sp.labels(&mut labels);
+    let control = format!("#[derive(Debug, Clone, PartialEq)]\npub struct {sname}{gdecl}{}{semi}{alias}", decl_fields(shape, &fields, false));
     let vals: Vec<u32> = fields.iter().map(|f| f.val).collect();
     let mut run = String::new();
     let mut probes = Probes::new();
@@ -951,14 +1222,14 @@ fn build_struct(d: &mut Dice) -> GenCase {
         let srcs = from_sources(&from_attr, &fams, false, false);
         for s in &srcs {
             match s {
-                Src::Concrete(t) => from_block(&mut run, d, "S", "S", shape, &fields, t),
+                Src::Concrete(t) => from_block(&mut run, d, "S", lit_path, shape, &fields, t),
                 Src::Forward(fams) => {
                     // the all-A instantiation and a random one
                     let a: Vec<Ty> = fams.iter().map(|f| Ty::A(*f)).collect();
-                    from_block(&mut run, d, "S", "S", shape, &fields, &a);
+                    from_block(&mut run, d, "S", lit_path, shape, &fields, &a);
                     let r: Vec<Ty> = fams.iter().map(|f| [Ty::B(*f), Ty::F(*f), Ty::A(*f)][d.pick(3)]).collect();
                     if r != a {
-                        from_block(&mut run, d, "S", "S", shape, &fields, &r);
+                        from_block(&mut run, d, "S", lit_path, shape, &fields, &r);
                     }
                 }
             }
@@ -985,7 +1256,7 @@ fn build_struct(d: &mut Dice) -> GenCase {
     // ---- Into oracle
     if d_into {
         for im in &impls {
-            into_block(&mut run, d, shape, &fields, im);
+            into_block(&mut run, d, shape, &fields, im, lit_path);
         }
         // candidates
         let key = |k: usize, t: &[Ty]| impls.iter().any(|i| i.kind == k && i.target == t);
@@ -1011,6 +1282,9 @@ fn build_struct(d: &mut Dice) -> GenCase {
             }
         }
         for (k, t) in cands {
+            if k == 0 && t.iter().any(|a| matches!(a, Ty::SQ(_))) {
+                continue; // `[Q]` by value is not a type a conversion can produce
+            }
             probes.add(kind_tys_str(k, &t, true), format!("{}S", REF_TY_STATIC[k]), key(k, &t));
         }
         probes.add_nominated(nominate(&item, "Into"));
@@ -1073,14 +1347,14 @@ fn build_struct(d: &mut Dice) -> GenCase {
     }
     // ---- Constructor oracle
     if d_ctor {
-        let args = fields.iter().map(|f| format!("F{}::v({})", f.fam, f.val)).collect::<Vec<_>>().join(", ");
+        let args = fields.iter().map(|f| Ty::F(f.fam).ctor(f.val)).collect::<Vec<_>>().join(", ");
         let _ = writeln!(
             run,
             "    o.eq(\"S::new(a0, a1, ..) puts the i-th argument into the i-th field\", &format!(\"{{:?}}\", mk()), &format!(\"{{:?}}\", S::new({args})));"
         );
         if d_from && matches!(from_attr, FromAttr::None) {
             let tty = tys_str(&fams.iter().map(|f| Ty::F(*f)).collect::<Vec<_>>());
-            let tv = tup(&fields.iter().map(|f| format!("F{}::v({})", f.fam, f.val)).collect::<Vec<_>>());
+            let tv = tup(&fields.iter().map(|f| Ty::F(f.fam).ctor(f.val)).collect::<Vec<_>>());
             let _ = writeln!(run, "    o.check(\"S::new(..) == S::from((..))\", S::new({args}) == <S as From<{tty}>>::from({tv}));");
         }
         labels.push("derive=Constructor".into());
@@ -1094,7 +1368,7 @@ fn build_struct(d: &mut Dice) -> GenCase {
     }
     labels.push(format!("shape={}", ["unit", "tuple", "named"][shape as usize]));
     labels.push(format!("nfields={nf}"));
-    let body = format!("{item}\nfn mk() -> S {{ {} }}\npub fn run(o: &mut Out) {{\n{run}}}", literal("S", shape, &fields, &vals));
+    let body = format!("{item}{alias}\nfn mk() -> S {{ {} }}\npub fn run(o: &mut Out) {{\n{run}}}", literal(lit_path, shape, &fields, &vals));
     let has_attr = !matches!(from_attr, FromAttr::None) || into_struct.is_some() || fields.iter().any(|f| f.into_skip.is_some() || f.into_attr.is_some());
     finish(body, control, labels, nf >= 2 || has_attr, json!({"kind": "struct", "nfields": nf}))
 }
@@ -1151,6 +1425,7 @@ fn build_enum(d: &mut Dice) -> GenCase {
                         FromAttr::Types(g)
                     }
                 }
+                _ if fams.contains(&TUPLE_FAM) => FromAttr::None,
                 _ => FromAttr::Forward,
             }
         };
@@ -1186,15 +1461,28 @@ fn build_enum(d: &mut Dice) -> GenCase {
     }
     let all_srcs: Vec<Src> = var_srcs.iter().flatten().cloned().collect();
 
-    let mut item = String::from("#[derive(Debug, Clone, PartialEq, derive_more::From)]\npub enum E {\n");
-    let mut control = String::from("#[derive(Debug, Clone, PartialEq)]\npub enum E {\n");
+    let mut sp = Sp::draw(d);
+    let generic = d.chance(12);
+    let (ename, alias) = if generic {
+        labels.push("const_generic_enum".into());
+        ("EG<const CN: usize>", "\npub type E = EG<7>;")
+    } else {
+        ("E", "")
+    };
+    let mut item = format!("#[derive(Debug, Clone, PartialEq, derive_more::From)]\npub enum {ename} {{\n");
+    let mut control = format!("#[derive(Debug, Clone, PartialEq)]\npub enum {ename} {{\n");
     for v in &vars {
-        item.push_str(&v.attr.render("    "));
+        item.push_str(&v.attr.render("    ", &mut sp));
+        if let FromAttr::Types(g) = &v.attr {
+            rich_ty_labels(g.iter().flatten().flatten(), &mut labels);
+        }
         let _ = writeln!(item, "    {}{},", v.name, decl_fields(v.shape, &v.fields, false));
         let _ = writeln!(control, "    {}{},", v.name, decl_fields(v.shape, &v.fields, false));
     }
     item.push('}');
     control.push('}');
+    control.push_str(alias);
+    sp.labels(&mut labels);
 
     let mut run = String::new();
     let mut probes = Probes::new();
@@ -1258,7 +1546,7 @@ fn build_enum(d: &mut Dice) -> GenCase {
     if all_srcs.is_empty() {
         labels.push("enum_without_impl".into());
     }
-    let body = format!("{item}\npub fn run(o: &mut Out) {{\n{run}}}");
+    let body = format!("{item}{alias}\npub fn run(o: &mut Out) {{\n{run}}}");
     let has_attr = vars.iter().any(|v| !matches!(v.attr, FromAttr::None));
     let maxf = vars.iter().map(|v| v.fields.len()).max().unwrap_or(0);
     finish(body, control, labels, nv >= 2 || has_attr || maxf >= 2, json!({"kind": "enum", "nvariants": nv}))
@@ -1409,7 +1697,7 @@ pub fn prop() -> DiceProp {
         build,
         fixed,
         classify,
-        rule: "one struct deriving a non-empty subset of From/Into/Constructor (unit, tuple, named; 0..4 fields) or one enum deriving From (1..4 variants with 0..3 fields), field types pairwise distinct / all equal / partly equal newtypes with pairwise distinct values and non-alphabetical declaration order; attributes: none, #[from], #[from(skip|ignore)], #[from(T..)] incl. tuple types and repeated attributes, #[from(forward)] on struct and variant; #[into], #[into(T..)], #[into(owned|ref|ref_mut[(T..)])], repeated, field-level conversions, skip/ignore, skip together with a field conversion; plus inputs that must be rejected (listed type of wrong arity, Into/Constructor on an enum). Oracle inside the program: converted value == literal with the i-th component in the i-th field; Into components == the non-skipped fields in declaration order, ref/ref_mut components have the fields' addresses and writes through them reach exactly those fields; round trips are the identity; the sorted log of user-level From impls executed == one per converted field; `T: From<U>` holds exactly for the pairs the documented rules give, over the listed types and systematic near misses (own tuple, all-A tuple, F/A/B substitutions, other family, reversed, one field less/more, unit, other reference kind, per-field) plus the impl headers nominated by the in-process expansion. non-trivial = >=2 fields, or an attribute, or an enum with >=2 variants; distinct by program text".into(),
+        rule: "one struct deriving a non-empty subset of From/Into/Constructor (unit, tuple, named; 0..4 fields) or one enum deriving From (1..4 variants with 0..3 fields), field types pairwise distinct / all equal / partly equal newtypes with pairwise distinct values and non-alphabetical declaration order; attributes: none, #[from], #[from(skip|ignore)], #[from(T..)] incl. tuple types and repeated attributes, #[from(forward)] on struct and variant; listed types also written as `&'static A`, `Box<X>`, the unsized `[Q]` (reference kinds), `crate::X`, `<X as Id>::T`, `(X)`, with trailing commas in tuple types and lists; a field whose type is written as a tuple type `(T4, u8)`; raw-identifier field names; an unused const parameter on the struct/enum (used through a type alias); plain-list and wrapped-kind #[into] attributes on one item, a kind written bare after its type list; #[into], #[into(T..)], #[into(owned|ref|ref_mut[(T..)])], repeated, field-level conversions, skip/ignore, skip together with a field conversion; plus inputs that must be rejected (listed type of wrong arity, Into/Constructor on an enum). Oracle inside the program: converted value == literal with the i-th component in the i-th field; Into components == the non-skipped fields in declaration order, ref/ref_mut components have the fields' addresses and writes through them reach exactly those fields; round trips are the identity; the sorted log of user-level From impls executed == one per converted field; `T: From<U>` holds exactly for the pairs the documented rules give, over the listed types and systematic near misses (own tuple, all-A tuple, F/A/B substitutions, other family, reversed, one field less/more, unit, other reference kind, per-field) plus the impl headers nominated by the in-process expansion. non-trivial = >=2 fields, or an attribute, or an enum with >=2 variants; distinct by program text".into(),
         assumptions: vec![
             "the inherent-const-vs-blanket-trait probe decides `T: From<U>` for concrete types (verified against present and absent impls)".into(),
             "field types are local newtypes without generics; generic parameters are C01's domain".into(),
@@ -1444,13 +1732,58 @@ pub fn prop() -> DiceProp {
             ("into_repeated_attr".into(), 0.025),
             ("roundtrip".into(), 0.05),
             ("negative".into(), 0.02),
+            ("listed_type_not_an_identifier".into(), 0.08),
+            ("listed_reference_type".into(), 0.05),
+            ("listed_generic_path_type".into(), 0.02),
+            ("listed_unsized_type".into(), 0.008),
+            ("listed_type_respelled".into(), 0.04),
+            ("trailing_comma".into(), 0.03),
+            ("into_plain_and_wrapped_attrs".into(), 0.015),
+            ("into_kind_typed_then_bare".into(), 0.004),
+            ("field_of_tuple_type".into(), 0.07),
+            ("sole_field_of_tuple_type".into(), 0.02),
+            ("raw_ident_fields".into(), 0.04),
+            ("const_generic_struct".into(), 0.03),
         ],
         shards: 0,
     }
 }
 
+/// The inputs that must be rejected are additionally expanded in-process: the rejection has to come from the derive
+/// itself (a diagnostic, or its explicit "only structs" panic), not from an accident of the generated program.
+fn confirm_negatives_inproc(p: &DiceProp, ctx: &super::core::Ctx, rep: &mut super::core::Report) {
+    use proptest::strategy::ValueTree;
+    let strat = ProgProp::strategy(p, ctx);
+    let (n, _) = ProgProp::budget(p, ctx.tier);
+    let mut runner = ctx.runner(0);
+    let mut confirmed = 0u64;
+    for t in super::core::draw(&mut runner, &strat, n) {
+        let c = t.current();
+        if c.expect_compile || c.meta["kind"] != "negative" {
+            continue;
+        }
+        let Some(derive) = ["From", "Into", "Constructor"].iter().find(|n| c.body.contains(&format!("derive(derive_more::{n})"))).and_then(|n| dm::Derive::by_name(n)) else { continue };
+        match dm::expand_src(derive, &c.body) {
+            Ok(dm::Outcome::Err(_)) => confirmed += 1,
+            Ok(dm::Outcome::Panic(pi)) if dm::is_deliberate(&pi) => confirmed += 1,
+            Ok(o) => rep.violations.push(super::core::Violation {
+                sig: None,
+                summary: format!("an input the documentation excludes ({}) is not rejected by the derive itself ({})", c.meta["what"].as_str().unwrap_or("?"), o.kind()),
+                case: json!({"inproc_item": c.body}),
+                expected: "a diagnostic from the derive".into(),
+                observed: o.kind().into(),
+            }),
+            Err(e) => rep.infra_errors.push(format!("negative item does not parse: {e}: {}", c.body)),
+        }
+    }
+    rep.evidence.add("negatives_confirmed_inproc", confirmed);
+}
+
 pub fn run(ctx: &super::core::Ctx) -> super::core::Report {
-    super::progprop::run(&prop(), ctx)
+    let p = prop();
+    let mut rep = super::progprop::run(&p, ctx);
+    confirm_negatives_inproc(&p, ctx, &mut rep);
+    rep
 }
 
 pub fn replay(ctx: &super::core::Ctx, case: &serde_json::Value) -> super::core::Report {
